@@ -6,6 +6,7 @@ use crate::engine::errors::StoreError;
 use crate::engine::schema::registry::SchemaRegistry;
 use crate::engine::shard::flush_progress::FlushProgress;
 use std::path::PathBuf;
+use std::sync::atomic::{AtomicU64, Ordering};
 use std::sync::{Arc, RwLock};
 use tokio::sync::{Mutex, RwLock as TokioRwLock, mpsc::Receiver, oneshot};
 use tracing::{debug, error, info, warn};
@@ -58,6 +59,10 @@ impl FlushWorker {
             Option<oneshot::Sender<Result<(), StoreError>>>,
         )>,
     ) -> Result<(), StoreError> {
+        // Lowest event id of a memtable whose flush did not end in a published segment: its
+        // entries are only in the WAL (and the retained passive buffer), so later flushes
+        // must not prune the WAL at or beyond it.
+        let unflushed_floor = Arc::new(AtomicU64::new(u64::MAX));
         while let Some((segment_id, memtable, registry, passive_memtable, flush_id, completion)) =
             rx.recv().await
         {
@@ -68,6 +73,7 @@ impl FlushWorker {
             let segment_ids = Arc::clone(&self.segment_ids);
             let lifecycle = Arc::clone(&self.segment_lifecycle);
             let base_dir = self.base_dir.clone();
+            let unflushed_floor = Arc::clone(&unflushed_floor);
 
             let flush_task = tokio::spawn(async move {
                 let _inflight_guard = inflight_guard;
@@ -78,6 +84,11 @@ impl FlushWorker {
                     .map(|e| e.event_id().raw())
                     .max()
                     .unwrap_or(0);
+                let min_event_id = memtable
+                    .iter()
+                    .map(|e| e.event_id().raw())
+                    .min()
+                    .unwrap_or(u64::MAX);
 
                 if tracing::enabled!(tracing::Level::INFO) {
                     info!(
@@ -119,6 +130,7 @@ impl FlushWorker {
                             error = %e,
                             "Flush failed"
                         );
+                        unflushed_floor.fetch_min(min_event_id, Ordering::SeqCst);
                         return flush_result;
                     }
                     Ok(()) => {
@@ -165,6 +177,7 @@ impl FlushWorker {
                                 segment_id,
                                 "Segment verification failed after retries, retaining passive buffer"
                             );
+                            unflushed_floor.fetch_min(min_event_id, Ordering::SeqCst);
                             return flush_result;
                         }
 
@@ -231,7 +244,10 @@ impl FlushWorker {
                             );
                         }
                         let cleaner = WalCleaner::new(shard_id);
-                        cleaner.cleanup_flushed(max_flushed_event_id);
+                        let keep_from = unflushed_floor.load(Ordering::SeqCst);
+                        cleaner.cleanup_flushed(
+                            max_flushed_event_id.min(keep_from.saturating_sub(1)),
+                        );
                         #[cfg(feature = "sim-hooks")]
                         crate::sim_hooks::gate("flush.pruned", format!("s{}/{:05}", shard_id, segment_id)).await;
                     }
